@@ -25,7 +25,7 @@ struct Conf {
   bool grid_block;   // the grid is given by a grid { } block of the bias; the variables' own boundaries and widths differ from it
 };
 
-static std::string conf_text(Conf const &c)
+static std::string conf_text(Conf const &c, std::string const &input_prefix = "")
 {
   std::string s;
   if (c.periodic) {
@@ -40,6 +40,7 @@ static std::string conf_text(Conf const &c)
   if (!c.apply) s += " applyBias off\n";
   if (c.max_force > 0) s += " maxForce " + num(c.max_force) + (c.nd == 2 ? " " + num(c.max_force) : "") + "\n";
   if (c.step_zero) s += " stepZeroData on\n";
+  if (input_prefix.size()) s += " inputPrefix " + input_prefix + "\n";
   if (c.grid_block) s += std::string(" grid {\n lowerBoundary 1.0") + (c.nd == 2 ? " 1.0" : "") + "\n upperBoundary 3.0" + (c.nd == 2 ? " 2.0" : "") +
                          "\n width 0.5" + (c.nd == 2 ? " 0.5" : "") + "\n }\n";
   s += "}\n";
@@ -137,6 +138,40 @@ static std::vector<double> sysforce(Conf const &c, Letter l, long s)
   return f;
 }
 
+
+// One run of `w` from a fresh module (engine steps 0..n-1), output files written under `prefix` at the end; the samples the
+// statement attributes to this run are appended to `ref`.  Returns false when the library reported an error.
+static bool run_and_write(Conf const &c, int ss, std::vector<Letter> const &w, std::string const &prefix, RefABF &ref, std::string &err)
+{
+  vproxy *px = new vproxy(4, ss != 0);
+  px->set_target_temperature(c.T);
+  px->set_prefixes(prefix);
+  place(*px, c, w[0], 0);
+  if (px->config(conf_text(c)) != 0) { err = px->errtxt; delete px; return false; }
+  std::vector<double> prev_other(c.nd, 0.0);
+  for (long s = 0; s < (long) w.size(); s++) {
+    place(*px, c, w[s], s);
+    if (px->step(s) != 0) { err = px->errtxt; delete px; return false; }
+    if (!ss) {
+      if (s >= 1) {
+        std::vector<double> f = sysforce(c, w[s - 1], s - 1);
+        if (c.harmonic == 1) f[0] += prev_other[0];
+        if (c.T > 0) f[0] += KB * c.T * 2.0 / REG[w[s - 1].reg];
+        ref.add(ref.flat(val0(c, w[s - 1]), val1(s - 1)), f);
+      }
+    } else if (s >= 1) {
+      std::vector<double> f = sysforce(c, w[s], s);
+      if (c.T > 0) f[0] += KB * c.T * 2.0 / REG[w[s].reg];
+      ref.add(ref.flat(val0(c, w[s]), val1(s)), f);
+    }
+    if (c.harmonic) prev_other[0] = -0.6 * (REG[w[s].reg] - 1.4) / 0.25;
+  }
+  int rc = px->end_run();
+  if (rc != 0) err = px->errtxt;
+  delete px;
+  return rc == 0;
+}
+
 int main(int argc, char **argv)
 {
   Args args(argc, argv);
@@ -189,15 +224,18 @@ int main(int argc, char **argv)
         for (int i = 0; i < L; i++) wj += std::string(i ? "," : "") + "[" + num(REG[word[i].reg]) + "," + num(FRC[word[i].frc]) + "]";
         wj += "]";
         for (int ss = 0; ss <= 1; ss++) {
-          // segmentation: mode 0 none; 1 new run in the same process at K; 2 restart at K
-          for (int mode = 0; mode <= 2; mode++)
+          // segmentation: mode 0 none; 1 new run in the same process at K; 2 restart at K from the saved state; 3 new
+          // simulation at K that reads the output files of the first through the bias's inputPrefix keyword
+          for (int mode = 0; mode <= 3; mode++)
             for (int K = (mode ? 1 : 0); K < (mode ? L - 1 : 1); K++) {
               r.count("evaluations");
               std::string det = std::string("{\"config\":\"") + c.name + "\",\"timing\":\"" + (ss ? "same-step" : "lagged") + "\",\"history\":" + wj +
-                                ",\"segmentation\":\"" + (mode == 0 ? "one run" : (mode == 1 ? "new run at step " : "restart at step ")) +
+                                ",\"segmentation\":\"" + (mode == 0 ? "one run" : (mode == 1 ? "new run at step " : (mode == 2 ? "restart at step " : "new simulation with inputPrefix at step "))) +
                                 (mode ? std::to_string(K) : "") + "\"";
               vproxy *px = new vproxy(4, ss != 0);
               px->set_target_temperature(c.T);
+              std::string ipfx = "ip" + std::to_string(shard);
+              if (mode == 3) px->set_prefixes(ipfx);
               place(*px, c, word[0], 0);
               if (px->config(conf) != 0) { fprintf(stderr, "HARNESS-ERROR: %s rejected: %s\n", c.name, px->errtxt.c_str()); exit(3); }
               RefABF ref(c);
@@ -213,14 +251,17 @@ int main(int argc, char **argv)
                 bool repeat = (s == prev);
                 if (repeat) {
                   px->end_run();
-                  if (mode == 2) {
-                    std::string st = px->state_text();
+                  if (mode == 2 || mode == 3) {
+                    std::string st = mode == 2 ? px->state_text() : std::string();
                     delete px;
                     px = new vproxy(4, ss != 0);
                     px->set_target_temperature(c.T);
                     place(*px, c, word[s], s);
-                    if (px->config(conf) != 0) { fprintf(stderr, "HARNESS-ERROR: %s rejected at restart\n", c.name); exit(3); }
-                    px->queue_state_text(st);
+                    if (px->config(mode == 2 ? conf : conf_text(c, ipfx)) != 0) {
+                      if (mode == 3) { r.violation(std::string("C04:input-files-refused:") + c.name, det + ",\"error\":\"" + jesc(px->errtxt.substr(0, 300)) + "\"}"); failed = true; break; }
+                      fprintf(stderr, "HARNESS-ERROR: %s rejected at restart\n", c.name); exit(3);
+                    }
+                    if (mode == 2) px->queue_state_text(st);
                   }
                 }
                 place(*px, c, word[s], s);
@@ -260,7 +301,7 @@ int main(int argc, char **argv)
                   long cnt = (long) abf->samples->value(ix);
                   if (cnt != ref.count(b)) {
                     std::string why = cnt > ref.count(b) ? "extra-sample" : "missing-sample";
-                    r.violation(std::string("C04:count:") + why + ":" + (ss ? "same-step" : "lagged") + ":" + (mode == 0 ? "one-run" : (mode == 1 ? "new-run" : "restart")),
+                    r.violation(std::string("C04:count:") + why + ":" + (ss ? "same-step" : "lagged") + ":" + (mode == 0 ? "one-run" : (mode == 1 ? "new-run" : (mode == 2 ? "restart" : "inputPrefix"))),
                                 det + ",\"step\":" + std::to_string(s) + ",\"bin\":" + std::to_string(b) + ",\"count\":" + std::to_string(cnt) +
                                     ",\"expected\":" + std::to_string(ref.count(b)) + "}");
                     failed = true;
@@ -269,7 +310,7 @@ int main(int argc, char **argv)
                   std::vector<double> m = ref.mean(b);
                   for (int i = 0; i < c.nd; i++) {
                     double g = abf->gradients->value_output(ix, i);
-                    if (!close_rel(g, -m[i], std::max(1.0, std::fabs(m[i])), mode == 2 ? 1e-9 : 1e-12)) {
+                    if (!close_rel(g, -m[i], std::max(1.0, std::fabs(m[i])), mode >= 2 ? 1e-9 : 1e-12)) {
                       r.violation(std::string("C04:gradient-differs-from-minus-mean-force:") + c.name,
                                   det + ",\"step\":" + std::to_string(s) + ",\"bin\":" + std::to_string(b) + ",\"gradient\":" + num(g) + ",\"expected\":" + num(-m[i]) + "}");
                       failed = true;
@@ -283,7 +324,7 @@ int main(int argc, char **argv)
                 for (int i = 0; i < c.nd; i++) {
                   double got = abf->colvar_forces[i].real_value;
                   if (!c.apply) got = abf->is_enabled(colvardeps::f_cvb_apply_force) ? got : 0.0;
-                  if (!close_rel(got, fb[i], std::max(1.0, std::fabs(fb[i])), mode == 2 ? 1e-9 : 1e-12)) {
+                  if (!close_rel(got, fb[i], std::max(1.0, std::fabs(fb[i])), mode >= 2 ? 1e-9 : 1e-12)) {
                     r.violation(std::string("C04:applied-force-differs:") + c.name + (bin_now < 0 ? ":outside-grid" : ""),
                                 det + ",\"step\":" + std::to_string(s) + ",\"force\":" + num(got) + ",\"expected\":" + num(fb[i]) + "}");
                     failed = true;
@@ -293,7 +334,7 @@ int main(int argc, char **argv)
                 // what the engine receives: ABF force (+ harmonic) on atom 2 along x
                 if (!failed) {
                   double fx = fb[0] + (c.harmonic ? -0.6 * (REG[word[s].reg] - 1.4) / 0.25 : 0.0);
-                  if (!close_rel(px->fapp[1].x, fx, std::max(1.0, std::fabs(fx)), mode == 2 ? 1e-9 : 1e-12)) {
+                  if (!close_rel(px->fapp[1].x, fx, std::max(1.0, std::fabs(fx)), mode >= 2 ? 1e-9 : 1e-12)) {
                     r.violation(std::string("C04:atomic-force-differs:") + c.name,
                                 det + ",\"step\":" + std::to_string(s) + ",\"force_x_atom2\":" + num(px->fapp[1].x) + ",\"expected\":" + num(fx) + "}");
                     failed = true;
@@ -310,6 +351,69 @@ int main(int argc, char **argv)
               if (w == 1234 % nw && mode == 0 && ss == 0) r.sample(det + "}");
               delete px;
             }
+          // merging: two independent simulations (letters 0..K and K..L-1, each from scratch) write their files; a third one
+          // names both in inputPrefix: it must start from the union of their samples (counts add, gradients are the mean over
+          // all samples) and apply the force that follows from it
+          for (int K = 1; K < L - 1 && L <= 8; K++) {
+            r.count("evaluations");
+            std::string det = std::string("{\"config\":\"") + c.name + "\",\"timing\":\"" + (ss ? "same-step" : "lagged") + "\",\"history\":" + wj +
+                              ",\"segmentation\":\"two simulations (letters 0.." + std::to_string(K) + " and " + std::to_string(K) + ".." + std::to_string(L - 1) +
+                              ") merged by a third through inputPrefix\"";
+            RefABF ref(c);
+            std::string err, pa = "ma" + std::to_string(shard), pb = "mb" + std::to_string(shard);
+            std::vector<Letter> wa(word.begin(), word.begin() + K + 1), wb(word.begin() + K, word.end());
+            if (!run_and_write(c, ss, wa, pa, ref, err) || !run_and_write(c, ss, wb, pb, ref, err)) {
+              r.violation(std::string("C04:error-during-run:") + c.name, det + ",\"error\":\"" + jesc(err.substr(0, 200)) + "\"}");
+              continue;
+            }
+            vproxy *px = new vproxy(4, ss != 0);
+            px->set_target_temperature(c.T);
+            place(*px, c, word[0], 0);
+            if (px->config(conf_text(c, pa + " " + pb)) != 0) {
+              r.violation(std::string("C04:input-files-refused:") + c.name, det + ",\"error\":\"" + jesc(px->errtxt.substr(0, 300)) + "\"}");
+              delete px;
+              continue;
+            }
+            bool failed = false;
+            if (px->step(0) != 0) { r.violation(std::string("C04:error-during-run:") + c.name, det + ",\"error\":\"" + jesc(px->errtxt.substr(0, 200)) + "\"}"); failed = true; }
+            r.count("transitions");
+            colvarbias_abf *abf = dynamic_cast<colvarbias_abf *>(px->bias("a"));
+            int nb = c.nd == 1 ? 4 : 8;
+            for (int b = 0; b < nb && !failed; b++) {
+              std::vector<int> ix = c.nd == 1 ? std::vector<int>{b} : std::vector<int>{b / 2, b % 2};
+              long cnt = (long) abf->samples->value(ix);
+              if (cnt != ref.count(b)) {
+                r.violation(std::string("C04:count:") + (cnt > ref.count(b) ? "extra-sample" : "missing-sample") + ":" + (ss ? "same-step" : "lagged") + ":merged-inputPrefix",
+                            det + ",\"bin\":" + std::to_string(b) + ",\"count\":" + std::to_string(cnt) + ",\"expected\":" + std::to_string(ref.count(b)) + "}");
+                failed = true;
+                break;
+              }
+              std::vector<double> m = ref.mean(b);
+              for (int i = 0; i < c.nd; i++) {
+                double g = abf->gradients->value_output(ix, i);
+                if (!close_rel(g, -m[i], std::max(1.0, std::fabs(m[i])), 1e-9)) {
+                  r.violation(std::string("C04:gradient-differs-from-minus-mean-force:merged-inputPrefix:") + c.name,
+                              det + ",\"bin\":" + std::to_string(b) + ",\"gradient\":" + num(g) + ",\"expected\":" + num(-m[i]) + "}");
+                  failed = true;
+                  break;
+                }
+              }
+            }
+            if (!failed) {
+              std::vector<double> fb = ref.bias_force(ref.flat(val0(c, word[0]), val1(0)));
+              for (int i = 0; i < c.nd; i++) {
+                double got = abf->colvar_forces[i].real_value;
+                if (!c.apply) got = abf->is_enabled(colvardeps::f_cvb_apply_force) ? got : 0.0;
+                if (!close_rel(got, fb[i], std::max(1.0, std::fabs(fb[i])), 1e-9)) {
+                  r.violation(std::string("C04:applied-force-differs:merged-inputPrefix:") + c.name, det + ",\"force\":" + num(got) + ",\"expected\":" + num(fb[i]) + "}");
+                  failed = true;
+                  break;
+                }
+              }
+            }
+            if (!failed && !ref.samples.empty()) r.seen("nontrivial", fnv(det));
+            delete px;
+          }
         }
       }
     }
